@@ -41,9 +41,12 @@ def run(rep):
     rep.assumptions = ["argument values are small integers; the function returns an injective token of its keyword arguments",
                        "shuffle permutations are forced through random.seed/random.shuffle; three fixed permutations when N > 3"]
     cfgs = configs(rep.tier)
-    runs = [dict(name="C07_all", configs=cfgs, acts=["reload"], max_steps=1, mode="bfs", need=["DoSow", "DoReload"])]
+    runs = [dict(name="C07_all", configs=cfgs, acts=["reload"], max_steps=1, mode="bfs", need=["DoSow", "DoReload"]),
+            # re-sowing (documented as safe) from the same object and from a reloaded one must give the same partition
+            dict(name="C07_resow", configs=cfgs[::3], acts=["reload", "resow"], max_steps=3, mode="bfs", need=["DoReSow"],
+                 sample=1500 if rep.tier == "quick" else 12000)]
     crop.drive(rep, runs, claims=lambda tag: tag in ("batches", "numbers", "outcome_sow", "outcome_reload", "obs_sow", "obs_reload",
-                                                     "dir_sow", "dir_reload"))
+                                                     "dir_sow", "dir_reload", "outcome_resow", "obs_resow", "dir_resow"))
     rep.exhaustive = True
     rep.extra["configurations"] = len(cfgs)
 
